@@ -715,7 +715,10 @@ def rule_ta_codec(repo, col):
         for n in walk_shallow(st):
             # explicit decodes of ids
             if isinstance(n, (ast.ListComp, ast.GeneratorExp)) and \
-                    _decodes(n.elt):
+                    _decodes(n.elt) and (
+                    ft_raw.is_t(n.generators[0].iter, raw) or not isinstance(
+                        n.generators[0].iter, (ast.Tuple, ast.List))):
+                # (a literal tuple of header attributes is not an id array)
                 for c in _decodes(n.elt):
                     note('ids-decode', n, c == 'utf8',
                          'ids decoded as utf8',
